@@ -357,6 +357,109 @@ OP(runtime_info) {
     c.emit(v); c.emit(n, strlen(n));
 }
 
+OP(aead_chacha_orig) {
+    size_t n = c.in.below(300), al = c.in.below(20); unsigned char *m = c.input(n), *ad = c.input(al), *k = c.input(32), *no = c.input(8), *ct = c.buf(n + 16), *d = c.buf(n); unsigned long long cl = 0, dl = 0; int v;
+    { LibScope l; crypto_aead_chacha20poly1305_encrypt(ct, &cl, m, n, ad, al, nullptr, no, k); v = crypto_aead_chacha20poly1305_decrypt(d, &dl, nullptr, ct, cl, ad, al, no, k); }
+    c.emit(ct, (size_t) cl); c.emit(v);
+}
+OP(aes256gcm_state) {
+    size_t n = c.in.below(200); unsigned char *m = c.input(n), *k = c.input(32), *no = c.input(12), *ct = c.buf(n + 16); unsigned long long cl = 0; int av;
+    crypto_aead_aes256gcm_state *st = (crypto_aead_aes256gcm_state *) (((uintptr_t) c.buf(sizeof(crypto_aead_aes256gcm_state) + 16) + 15) & ~(uintptr_t) 15);
+    { LibScope l; av = crypto_aead_aes256gcm_is_available(); if (av) { crypto_aead_aes256gcm_beforenm(st, k); crypto_aead_aes256gcm_encrypt_afternm(ct, &cl, m, n, nullptr, 0, nullptr, no, st); } }
+    c.emit(av); c.emit(ct, (size_t) cl);
+}
+OP(stream_xchacha20) { size_t n = c.in.below(600); unsigned char *k = c.input(32), *no = c.input(24), *o = c.buf(n); { LibScope l; crypto_stream_xchacha20(o, n, no, k); } c.emit(o, n); }
+OP(stream_salsa_variants) {
+    size_t n = c.in.below(300); unsigned char *k = c.input(32), *no = c.input(8), *o = c.buf(n), *o2 = c.buf(n);
+    { LibScope l; crypto_stream_salsa2012(o, n, no, k); crypto_stream_salsa208(o2, n, no, k); }
+    c.emit(o, n); c.emit(o2, n);
+}
+OP(hchacha_hsalsa) {
+    unsigned char *in = c.input(16), *k = c.input(32), *o = c.buf(32), *o2 = c.buf(32);
+    { LibScope l; crypto_core_hchacha20(o, in, k, nullptr); crypto_core_hsalsa20(o2, in, k, nullptr); }
+    c.emit(o, 32); c.emit(o2, 32);
+}
+OP(hmacsha256_multi) {
+    size_t n = c.in.below(300), cut = c.in.below(n + 1); unsigned char *m = c.input(n), *k = c.input(40), *t = c.buf(32);
+    crypto_auth_hmacsha256_state *st = (crypto_auth_hmacsha256_state *) c.buf(sizeof(crypto_auth_hmacsha256_state));
+    { LibScope l; crypto_auth_hmacsha256_init(st, k, 40); crypto_auth_hmacsha256_update(st, m, cut); crypto_auth_hmacsha256_update(st, m + cut, n - cut); crypto_auth_hmacsha256_final(st, t); }
+    c.emit(t, 32);
+}
+OP(sha512_multi) {
+    size_t n = c.in.below(400), cut = c.in.below(n + 1); unsigned char *m = c.input(n), *h = c.buf(64);
+    crypto_hash_sha512_state *st = (crypto_hash_sha512_state *) c.buf(sizeof(crypto_hash_sha512_state));
+    { LibScope l; crypto_hash_sha512_init(st); crypto_hash_sha512_update(st, m, cut); crypto_hash_sha512_update(st, m + cut, n - cut); crypto_hash_sha512_final(st, h); }
+    c.emit(h, 64);
+}
+OP(blake2b_salt_personal) {
+    size_t n = c.in.below(200); unsigned char *m = c.input(n), *k = c.input(32), *sa = c.input(16), *pe = c.input(16), *h = c.buf(64);
+    { LibScope l; crypto_generichash_blake2b_salt_personal(h, 64, m, n, k, 32, sa, pe); }
+    c.emit(h, 64);
+}
+OP(onetimeauth_multi) {
+    size_t n = c.in.below(300), cut = c.in.below(n + 1); unsigned char *m = c.input(n), *k = c.input(32), *t = c.buf(16);
+    crypto_onetimeauth_state *st = (crypto_onetimeauth_state *) (((uintptr_t) c.buf(sizeof(crypto_onetimeauth_state) + 64) + 63) & ~(uintptr_t) 63);
+    { LibScope l; crypto_onetimeauth_init(st, k); crypto_onetimeauth_update(st, m, cut); crypto_onetimeauth_update(st, m + cut, n - cut); crypto_onetimeauth_final(st, t); }
+    c.emit(t, 16);
+}
+OP(siphashx24) { size_t n = c.in.below(100); unsigned char *m = c.input(n), *k = c.input(16), *h = c.buf(16); { LibScope l; crypto_shorthash_siphashx24(h, m, n, k); } c.emit(h, 16); }
+OP(hkdf_sha512) {
+    size_t n = c.in.below(80); unsigned char *ikm = c.input(n), *salt = c.input(16), *prk = c.buf(64), *o = c.buf(80);
+    { LibScope l; crypto_kdf_hkdf_sha512_extract(prk, salt, 16, ikm, n); crypto_kdf_hkdf_sha512_expand(o, 80, "ctx", 3, prk); }
+    c.emit(o, 80);
+}
+OP(secretbox_detached) {
+    size_t n = c.in.below(300); unsigned char *m = c.input(n), *k = c.input(32), *no = c.input(24), *ct = c.buf(n), *mac = c.buf(16), *d = c.buf(n); int v;
+    { LibScope l; crypto_secretbox_detached(ct, mac, m, n, no, k); v = crypto_secretbox_open_detached(d, ct, mac, n, no, k); }
+    c.emit(ct, n); c.emit(mac, 16); c.emit(v);
+}
+OP(box_xchacha) {
+    size_t n = c.in.below(200); unsigned char *m = c.input(n), *s1 = c.input(32), *s2 = c.input(32), *no = c.input(24), *pk1 = c.buf(32), *sk1 = c.buf(32), *pk2 = c.buf(32), *sk2 = c.buf(32), *ct = c.buf(n + 16), *d = c.buf(n); int v;
+    { LibScope l; crypto_box_curve25519xchacha20poly1305_seed_keypair(pk1, sk1, s1); crypto_box_curve25519xchacha20poly1305_seed_keypair(pk2, sk2, s2);
+      crypto_box_curve25519xchacha20poly1305_easy(ct, m, n, no, pk2, sk1); v = crypto_box_curve25519xchacha20poly1305_open_easy(d, ct, n + 16, no, pk1, sk2); }
+    c.emit(ct, n + 16); c.emit(v);
+}
+OP(sign_convert) {
+    unsigned char *seed = c.input(32), *pk = c.buf(32), *sk = c.buf(64), *cpk = c.buf(32), *csk = c.buf(32), *s2 = c.buf(32), *p2 = c.buf(32); int a, b;
+    { LibScope l; crypto_sign_seed_keypair(pk, sk, seed); a = crypto_sign_ed25519_pk_to_curve25519(cpk, pk); b = crypto_sign_ed25519_sk_to_curve25519(csk, sk); crypto_sign_ed25519_sk_to_seed(s2, sk); crypto_sign_ed25519_sk_to_pk(p2, sk); }
+    c.emit(cpk, 32); c.emit(csk, 32); c.emit(s2, 32); c.emit(p2, 32); c.emit(a * 2 + b);
+}
+OP(sign_combined) {
+    size_t n = c.in.below(150); unsigned char *m = c.input(n), *seed = c.input(32), *pk = c.buf(32), *sk = c.buf(64), *sm = c.buf(n + 64), *d = c.buf(n + 64); unsigned long long sl = 0, dl = 0; int v;
+    { LibScope l; crypto_sign_seed_keypair(pk, sk, seed); crypto_sign(sm, &sl, m, n, sk); v = crypto_sign_open(d, &dl, sm, sl, pk); }
+    c.emit(sm, (size_t) sl); c.emit(v);
+}
+OP(ed25519_scalars) {
+    unsigned char *a = c.input(64), *b = c.input(32), *r = c.buf(32), *m = c.buf(32), *i = c.buf(32), *q = c.buf(32); int x;
+    { LibScope l; crypto_core_ed25519_scalar_reduce(r, a); crypto_core_ed25519_scalar_mul(m, r, b); x = crypto_core_ed25519_scalar_invert(i, r); crypto_scalarmult_ed25519_base_noclamp(q, r); }
+    c.emit(r, 32); c.emit(m, 32); c.emit(i, 32); c.emit(q, 32); c.emit(x);
+}
+OP(ristretto_hash) {
+    unsigned char *h = c.input(64), *p = c.buf(32), *q = c.buf(32), *s = c.input(32); int a;
+    { LibScope l; crypto_core_ristretto255_from_hash(p, h); a = crypto_scalarmult_ristretto255(q, s, p); }
+    c.emit(p, 32); c.emit(q, 32); c.emit(a);
+}
+OP(h2c) {
+    size_t n = c.in.below(60); unsigned char *m = c.input(n), *p = c.buf(32), *q = c.buf(32); int a, b;
+    { LibScope l; a = crypto_core_ed25519_from_string(p, "verif-ctx", m, n, 1); b = crypto_core_ristretto255_from_string(q, "verif-ctx", m, n, 2); }
+    c.emit(p, 32); c.emit(q, 32); c.emit(a * 2 + b);
+}
+OP(pwhash_str_argon2i) {
+    char *s = (char *) c.buf(crypto_pwhash_STRBYTES); const char *pw = "pw-argon2i"; int r, v;
+    { LibScope l; r = crypto_pwhash_str_alg(s, pw, strlen(pw), 3, 8192, crypto_pwhash_ALG_ARGON2I13); v = crypto_pwhash_str_verify(s, pw, strlen(pw)); }
+    c.emit(s, strlen(s)); c.emit(r * 10 + v);
+}
+OP(base64_variants) {
+    size_t n = c.in.below(50); unsigned char *b = c.input(n), *back = c.buf(n + 1); char *e = (char *) c.buf(sodium_base64_ENCODED_LEN(n, sodium_base64_VARIANT_ORIGINAL)); size_t bl = 0; int r;
+    { LibScope l; sodium_bin2base64(e, sodium_base64_ENCODED_LEN(n, sodium_base64_VARIANT_ORIGINAL), b, n, sodium_base64_VARIANT_ORIGINAL); r = sodium_base642bin(back, n + 1, e, strlen(e), " ", &bl, nullptr, sodium_base64_VARIANT_ORIGINAL); }
+    c.emit(e, strlen(e)); c.emit(r); c.emit(back, bl);
+}
+OP(kx_server) {
+    unsigned char *s1 = c.input(32), *s2 = c.input(32), *pk1 = c.buf(32), *sk1 = c.buf(32), *pk2 = c.buf(32), *sk2 = c.buf(32), *rx = c.buf(32), *tx = c.buf(32); int a;
+    { LibScope l; crypto_kx_seed_keypair(pk1, sk1, s1); crypto_kx_keypair(pk2, sk2); (void) s2; a = crypto_kx_server_session_keys(rx, tx, pk1, sk1, pk2); }
+    c.emit(pk2, 32); c.emit(rx, 32); c.emit(tx, 32); c.emit(a);
+}
+
 static void verif_misuse_handler(void) {}
 // public API that is rarely called but must be as thread-safe as the rest: installing the (same) misuse handler takes
 // the library lock; stir/close of the installed random source touch only per-thread state on this platform
@@ -377,6 +480,11 @@ const OpDesc OPS[] = {
     {"secretstream", op_secretstream}, {"pwhash_argon2id", op_pwhash_argon2id}, {"pwhash_argon2i", op_pwhash_argon2i}, {"pwhash_str", op_pwhash_str}, {"scrypt_ll", op_scrypt_ll},
     {"codecs", op_codecs}, {"padding", op_padding}, {"utils", op_utils}, {"randombytes", op_randombytes}, {"randombytes_small", op_randombytes_small}, {"keygens", op_keygens},
     {"guarded_alloc", op_guarded_alloc}, {"guarded_allocarray", op_guarded_allocarray}, {"mlock", op_mlock}, {"runtime_info", op_runtime_info}, {"misuse_handler", op_misuse_handler}, {"rng_stir_close", op_rng_stir_close},
+    {"aead_chacha_orig", op_aead_chacha_orig}, {"aes256gcm_state", op_aes256gcm_state}, {"stream_xchacha20", op_stream_xchacha20}, {"stream_salsa_variants", op_stream_salsa_variants},
+    {"hchacha_hsalsa", op_hchacha_hsalsa}, {"hmacsha256_multi", op_hmacsha256_multi}, {"sha512_multi", op_sha512_multi}, {"blake2b_salt_personal", op_blake2b_salt_personal},
+    {"onetimeauth_multi", op_onetimeauth_multi}, {"siphashx24", op_siphashx24}, {"hkdf_sha512", op_hkdf_sha512}, {"secretbox_detached", op_secretbox_detached}, {"box_xchacha", op_box_xchacha},
+    {"sign_convert", op_sign_convert}, {"sign_combined", op_sign_combined}, {"ed25519_scalars", op_ed25519_scalars}, {"ristretto_hash", op_ristretto_hash}, {"h2c", op_h2c},
+    {"pwhash_str_argon2i", op_pwhash_str_argon2i}, {"base64_variants", op_base64_variants}, {"kx_server", op_kx_server},
 };
 const size_t NOPS = sizeof OPS / sizeof OPS[0];
 // ops whose results depend on the random source (weighted up: the default generator and guarded allocation are named by the property)
@@ -488,7 +596,7 @@ struct C19 {
     static const char *name() { return "c19_threads"; }
     static const char *level() { return "exploration"; }
     static const char *rule() {
-        return "seeded plans: N in 2..16 real threads, each calling sodium_init() and then 0-12 operations drawn from a 47-entry table covering every API family (no barrier "
+        return "seeded plans: N in 2..16 real threads, each calling sodium_init() and then 0-12 operations drawn from a 68-entry table covering every API family (no barrier "
                "between init and workload), under RNG configuration {default sysrandom over simulated getrandom, internal, scripted} and lock variant " C19_LOCK_VARIANT
                ". Exactly one thread is runnable at a time; a seeded scheduler (random walk / PCT depth 1-4 / loser-first / coarse) decides at every instrumented access to "
                "tracked memory, every lock/unlock, atomic and wrapped system call. Oracles: own vector-clock happens-before race detector over the TSan compiler ABI "
